@@ -27,6 +27,8 @@ class FakeStreamSock:
         self.closed = False
         self.shut = False
         self.sent = []
+        self.peer_gone_at = None        # virtual time at which the peer's close takes effect
+        self.sent_after_peer_close = 0
 
     # --- peer side
     def deliver(self, data, delay=0.0):
@@ -34,6 +36,10 @@ class FakeStreamSock:
         self._insert(delay, bytes(data))
 
     def peer_close(self, delay=0.0):
+        s = schedx._sched
+        now = s.now if s else schedx.vtime()
+        if self.peer_gone_at is None or now + delay < self.peer_gone_at:
+            self.peer_gone_at = now + delay
         self._insert(delay, None)
 
     def _insert(self, delay, item):
@@ -72,6 +78,15 @@ class FakeStreamSock:
         if self.shut:
             raise BrokenPipeError(32, 'Broken pipe')
         data = bytes(data)
+        now = s.now if s is not None else schedx.vtime()
+        if self.peer_gone_at is not None and now >= self.peer_gone_at:
+            # as TCP does: the first send after the peer has closed is accepted (and answered with a reset nobody sees yet),
+            # from the second one on the socket reports the broken pipe; the peer gets none of it
+            self.sent_after_peer_close += 1
+            self.net.log.append(('tx-after-peer-close', self.label, data))
+            if self.sent_after_peer_close > 1:
+                raise BrokenPipeError(32, 'Broken pipe')
+            return
         self.sent.append(data)
         self.net.log.append(('tx', self.label, data))
         self.peer.on_data(self, data)
